@@ -1,6 +1,7 @@
 //! C20 helper: the clap-derive surface of antnode (`Opt`, flattened `PeersArgs`, `EvmNetworkCommand`)
 //! and ant-node's shipped default features. Closed list of attribute keys; anything else is an error.
 use crate::upgrade::{lean_str, toks};
+use ::quote::ToTokens;
 use crate::util::*;
 use std::path::PathBuf;
 
@@ -368,6 +369,11 @@ pub fn surface(repo: &PathBuf) -> Result<String, String> {
         }
     }
 
+    // which field of the command ends up in which field of `CustomNetwork`:
+    // `Self::EvmCustom { a, b, c } => EvmNetwork::new_custom(&x0, &x1, &x2)`  (subcommands.rs)
+    // `fn new_custom(p0, p1, p2) { Self::Custom(CustomNetwork::new(y0, y1, y2)) }`, `fn new(q0, q1, q2) { Self { field: ..q.. } }`  (evmlib)
+    let custom_into = custom_field_flow(repo, &m_arms_of(into)?)?;
+
     // default features of ant-node
     let cargo = std::fs::read_to_string(repo.join("ant-node/Cargo.toml")).map_err(|e| e.to_string())?;
     let mut in_features = false;
@@ -402,8 +408,138 @@ pub fn surface(repo: &PathBuf) -> Result<String, String> {
         into_tbl.iter().map(|(a, b)| format!("({}, {})", lean_str(a), lean_str(b))).collect::<Vec<_>>().join(", ")
     ));
     s.push_str(&format!(
+        "/-- data flow of `impl Into<EvmNetwork>` for the custom network through `Network::new_custom` and `CustomNetwork::new`: (field of `CustomNetwork`, field of `EvmNetworkCommand::EvmCustom` it is built from) -/\ndef evmCustomInto : List (String × String) := [{}]\n",
+        custom_into.iter().map(|(a, b)| format!("({}, {})", lean_str(a), lean_str(b))).collect::<Vec<_>>().join(", ")
+    ));
+    s.push_str(&format!(
         "/-- `default = [..]` of ant-node/Cargo.toml: the shipped feature set -/\ndef defaultFeatures : List String := [{}]\n",
         defaults.iter().map(|d| lean_str(d)).collect::<Vec<_>>().join(", ")
     ));
     Ok(s)
+}
+
+fn m_arms_of(f: &syn::ImplItemFn) -> Result<Vec<syn::Arm>, String> {
+    struct M(Vec<syn::ExprMatch>);
+    impl<'ast> syn::visit::Visit<'ast> for M {
+        fn visit_expr_match(&mut self, m: &'ast syn::ExprMatch) {
+            self.0.push(m.clone());
+        }
+    }
+    let mut m = M(vec![]);
+    syn::visit::Visit::visit_block(&mut m, &f.block);
+    if m.0.len() != 1 {
+        return Err("EvmNetworkCommand::into: expected one match".into());
+    }
+    Ok(m.0[0].arms.clone())
+}
+
+/// identifiers passed (possibly by reference / clone / as_str) as the arguments of the one call to `callee` inside `e`
+fn call_arg_idents(e: &dyn quote::ToTokens, callee: &str, what: &str) -> Result<Vec<String>, String> {
+    struct C<'a>(&'a str, Vec<syn::ExprCall>);
+    impl<'ast, 'a> syn::visit::Visit<'ast> for C<'a> {
+        fn visit_expr_call(&mut self, c: &'ast syn::ExprCall) {
+            if toks(&c.func).replace(' ', "").ends_with(self.0) {
+                self.1.push(c.clone());
+            }
+            syn::visit::visit_expr_call(self, c);
+        }
+    }
+    let expr: syn::Expr = syn::parse2(e.to_token_stream()).map_err(|x| format!("{what}: {x}"))?;
+    let mut c = C(callee, vec![]);
+    syn::visit::Visit::visit_expr(&mut c, &expr);
+    if c.1.len() != 1 {
+        return Err(format!("{what}: expected exactly one call of {callee}, found {}", c.1.len()));
+    }
+    let mut out = vec![];
+    for a in &c.1[0].args {
+        let mut cur = a;
+        loop {
+            match cur {
+                syn::Expr::Reference(r) => cur = &r.expr,
+                syn::Expr::Paren(p) => cur = &p.expr,
+                syn::Expr::MethodCall(m) if m.args.is_empty() && ["clone", "as_str", "to_string", "as_ref"].contains(&m.method.to_string().as_str()) => cur = &m.receiver,
+                _ => break,
+            }
+        }
+        match cur {
+            syn::Expr::Path(p) if p.path.segments.len() == 1 => out.push(p.path.segments[0].ident.to_string()),
+            o => return Err(format!("{what}: argument `{}` of {callee} is not a plain variable", toks(o))),
+        }
+    }
+    Ok(out)
+}
+
+fn param_names(sig: &syn::Signature) -> Vec<String> {
+    sig.inputs
+        .iter()
+        .filter_map(|a| if let syn::FnArg::Typed(t) = a { Some(toks(&t.pat).replace(' ', "")) } else { None })
+        .collect()
+}
+
+fn custom_field_flow(repo: &PathBuf, arms: &[syn::Arm]) -> Result<Vec<(String, String)>, String> {
+    // 1. the EvmCustom arm: binding variable -> command field, and the variables handed to new_custom
+    let arm = arms
+        .iter()
+        .find(|a| toks(&a.body).replace(' ', "").contains("new_custom("))
+        .ok_or("EvmNetworkCommand::into: no arm calls EvmNetwork::new_custom")?;
+    let mut var_field: Vec<(String, String)> = vec![];
+    match &arm.pat {
+        syn::Pat::Struct(ps) => {
+            for fp in &ps.fields {
+                let field = match &fp.member {
+                    syn::Member::Named(i) => i.to_string(),
+                    _ => return Err("EvmCustom: tuple field".into()),
+                };
+                let var = match &*fp.pat {
+                    syn::Pat::Ident(i) => i.ident.to_string(),
+                    o => return Err(format!("EvmCustom: field pattern `{}`", toks(o))),
+                };
+                var_field.push((var, field));
+            }
+        }
+        o => return Err(format!("EvmNetworkCommand::into: custom arm pattern `{}`", toks(o))),
+    }
+    let passed = call_arg_idents(&arm.body, "new_custom", "EvmNetworkCommand::into")?;
+    // 2. new_custom(p..) -> CustomNetwork::new(y..)
+    let evm = parse_file(&repo.join("evmlib/src/lib.rs"))?;
+    let new_custom = impl_fn(&evm, "Network", None, "new_custom")?;
+    let p = param_names(&new_custom.sig);
+    let y = call_arg_idents(&new_custom.block, "CustomNetwork::new", "Network::new_custom")?;
+    // 3. CustomNetwork::new(q..) -> Self { field: ..q.. }
+    let cn_new = impl_fn(&evm, "CustomNetwork", None, "new")?;
+    let q = param_names(&cn_new.sig);
+    if passed.len() != p.len() || y.len() != q.len() {
+        return Err("custom network constructors: argument counts differ".into());
+    }
+    struct S(Vec<syn::ExprStruct>);
+    impl<'ast> syn::visit::Visit<'ast> for S {
+        fn visit_expr_struct(&mut self, s: &'ast syn::ExprStruct) {
+            self.0.push(s.clone());
+        }
+    }
+    let mut st = S(vec![]);
+    syn::visit::Visit::visit_block(&mut st, &cn_new.block);
+    if st.0.len() != 1 {
+        return Err("CustomNetwork::new: expected one struct literal".into());
+    }
+    let mut out = vec![];
+    for f in &st.0[0].fields {
+        let field = match &f.member {
+            syn::Member::Named(i) => i.to_string(),
+            _ => return Err("CustomNetwork: tuple field".into()),
+        };
+        let text = toks(&f.expr);
+        let words: Vec<&str> = text.split(|c: char| !(c.is_alphanumeric() || c == '_')).collect();
+        let used: Vec<usize> = (0..q.len()).filter(|i| words.contains(&q[*i].as_str())).collect();
+        if used.len() != 1 {
+            return Err(format!("CustomNetwork::new: field {field} is built from {} parameters", used.len()));
+        }
+        // q[j] receives y[j], which is parameter p[i] of new_custom, which receives passed[i]
+        let yj = &y[used[0]];
+        let i = p.iter().position(|x| x == yj).ok_or_else(|| format!("Network::new_custom passes `{yj}`, not one of its parameters"))?;
+        let var = &passed[i];
+        let cmd_field = var_field.iter().find(|(v, _)| v == var).map(|(_, f)| f.clone()).ok_or_else(|| format!("EvmNetworkCommand::into: `{var}` is not a field of EvmCustom"))?;
+        out.push((field, cmd_field));
+    }
+    Ok(out)
 }
